@@ -225,8 +225,12 @@ class Ctx:
             "wall_s": round(wall, 3),
             "violations": nviol,
         }
-        os.makedirs(os.path.join(VERIF, "evidence"), exist_ok=True)
+        os.makedirs(os.path.join(VERIF, "evidence", self.tier), exist_ok=True)
         with open(os.path.join(VERIF, "evidence", "%s.json" % self.prop), "w") as fh:
+            json.dump(ev, fh, indent=1)
+        # a per-tier copy, so that the quick run of the harness does not erase what the last
+        # thorough run covered
+        with open(os.path.join(VERIF, "evidence", self.tier, "%s.json" % self.prop), "w") as fh:
             json.dump(ev, fh, indent=1)
 
 
